@@ -463,6 +463,21 @@ def check_log(case, obs):
             bad.append(("peer-close-not-noticed", where + "the peer closed, the transport is reading, but connectionLost was not delivered"))
         if open_ is None and not closed and not waiting and netpaused and not conn_lost:
             bad.append(("reading-left-paused", where + "channel idle, transport writable, but reading is still paused"))
+        # a pause must not outlive its reason: with the transport writable, reading may stay paused only while more than the
+        # eager-read limit is buffered behind the request being handled
+        if open_ is not None and open_ < len(ends) and not closed and not waiting and netpaused and not conn_lost \
+                and delivered - ends[open_] <= case["eager"]:
+            if peer_closed_:
+                pend = sorted(f"{i}.{d}" for (i, d), (state, _) in defs.items() if state == "pending" and i == open_)
+                bad.append(("peer-close-unnoticed",
+                            where + f"the peer closed the connection while request {open_} is being handled; the transport is "
+                                    f"writable and only {delivered - ends[open_]} bytes are buffered (limit {case['eager']}), but "
+                                    f"reading is still paused: connectionLost is not delivered"
+                                    + (f" and notifyFinish Deferred(s) {', '.join(pend)} never fire with the failure" if pend else "")))
+            else:
+                bad.append(("reading-left-paused-while-handling",
+                            where + f"request {open_} is being handled, the transport is writable, {delivered - ends[open_]} bytes "
+                                    f"buffered (limit {case['eager']}), but reading is still paused: a peer close would go unnoticed"))
         # head-of-line blocking must end: an idle channel holds no complete request back
         if open_ is None and not closed and not conn_lost and nextp < len(ends) and delivered >= ends[nextp]:
             bad.append(("pipelined-request-stalled", where + f"request {nextp} is completely received, no request is being "
@@ -677,7 +692,8 @@ def gen(rng, tier):
                              [["data", one], ["data", 10], ["data", one - 10], ["lose"], ["app", 0, "f"], ["app", 1, "f"]],
                              [["data", one], ["data", one], ["tp"], ["app", 0, "f"], ["tr"], ["lose"], ["app", 1, "w"], ["app", 1, "f"]],
                              [["data", one], ["tp"], ["data", one], ["tr"], ["data", 5], ["lose"], ["app", 0, "f"]]):
-                    cases.append({"eager": eager, "sync": False, "reqs": (reqs + [{"pad": 0, "close": False, "script": "nf"}] * 2)[:3],
+                    cases.append({"eager": eager, "sync": False,
+                                  "reqs": [reqs[0], {"pad": 0, "close": False, "script": "n"}, {"pad": 0, "close": False, "script": "nf"}],
                                   "ops": hist})
     for _ in range(1200 if tier == "quick" else 15000):
         cases.append(_random_case(rng))
